@@ -172,7 +172,87 @@ def _gen_slide(rng):
     return {"kind": "slide", "cells": _cells_kind(rng, p), "X": p, "w": w}
 
 
-GENS = [("pad", _gen_pad, 60), ("trunc", _gen_trunc, 60), ("interp", _gen_interp, 60),
+FEATS = ["mean", "std", "slope"]
+
+
+def _gen_rife(rng):
+    n = rng.randint(3, 9)
+    p = _panel(rng, "equal", n_cols=1, n=n)
+    feats = rng.choice([["mean"], ["mean", "std", "slope"], ["slope", "mean"], ["std"],
+                        ["slope"], ["std", "slope", "mean"]])
+    k = rng.randint(1, min(4, n))
+    mnl = rng.choice([None, None, 2, 3]) if n >= 4 else None
+    X2 = None if rng.random() < 0.6 else _panel(rng, "equal", n_cols=1, n=n)
+    return {"kind": "rife", "cells": _cells_kind(rng, p), "fit": p if X2 else None,
+            "X": X2 or p, "feats": feats, "n_intervals": k, "min_length": mnl,
+            "seed": rng.randint(0, 10 ** 6)}
+
+
+def _gen_row(rng):
+    shape = "equal" if rng.random() < 0.9 else "unequal"
+    p = _panel(rng, shape, nmin=1 if rng.random() < 0.1 else 2, nmax=7)
+    if rng.random() < 0.6:
+        f = rng.choice([["affine", 2.0, 1.0], ["affine", -0.5, 3.0], ["cumsum"], ["cumsum"],
+                        ["reverse"]])
+        return {"kind": "row_s2s", "cells": _cells_kind(rng, p), "X": p, "f": f}
+    return {"kind": "row_s2p", "cells": _cells_kind(rng, p), "X": p,
+            "g": rng.choice(["mean", "weighted", "weighted"])}
+
+
+METHODS = ["mean", "median", "constant", "ffill", "bfill", "pad", "backfill", "nearest", "linear",
+           "drift"]
+
+
+def _gen_impute(rng, method=None):
+    n = rng.randint(1, 9)
+    z = _vals(rng, n)
+    rate = rng.choice([0.0, 0.2, 0.4, 0.4, 0.6, 0.9])
+    z = [None if rng.random() < rate else v for v in z]
+    if rng.random() < 0.3 and n >= 3:
+        z[0] = None
+    if rng.random() < 0.3 and n >= 3:
+        z[-1] = None
+    if rng.random() < 0.25 and n >= 5:      # a long interior gap with an exact midpoint
+        z[1:4] = [None, None, None]
+        z[0], z[4] = z[0] if z[0] is not None else 1.0, z[4] if z[4] is not None else 5.0
+    method = method or rng.choice(METHODS)
+    return {"kind": "impute", "method": method,
+            "value": rng.choice([7.0, -1.5, 0.0]) if method == "constant" else None, "z": z,
+            "t0": rng.choice([0, 0, 5])}
+
+
+def _gen_cos(rng):
+    n = rng.randint(1, 7)
+    cols = [[rng.choice(QUARTERS + [-7.5, 8.0, 6.25]) for _ in range(n)]
+            for _ in range(rng.choice([1, 1, 2]))]
+    return {"kind": "cos", "cols": cols}
+
+
+def _gen_acf(rng):
+    n = rng.randint(2, 9)
+    z = _vals(rng, n)
+    if rng.random() < 0.08:
+        z = [z[0]] * n          # constant series: 0 / 0
+    return {"kind": "acf", "z": z, "n_lags": rng.choice([None, None, 0, 1, 2, 3, n - 1, n, n + 2]),
+            "adjusted": rng.random() < 0.4, "fft": rng.random() < 0.3}
+
+
+def _gen_adapt(rng):
+    nc = rng.choice([1, 1, 2])
+    n = rng.randint(1, 8)
+    fit = [_vals(rng, n) for _ in range(nc)]
+    if rng.random() < 0.1:
+        fit[0] = [fit[0][0]] * n    # zero range
+    cols = fit if rng.random() < 0.5 else [_vals(rng, rng.randint(1, 8))] * 1
+    if cols is not fit:
+        m = len(cols[0])
+        cols = [cols[0]] + [_vals(rng, m) for _ in range(nc - 1)]
+    return {"kind": "adapt", "fit": fit, "cols": cols}
+
+
+GENS = [("rife", _gen_rife, 50), ("row", _gen_row, 50), ("impute", _gen_impute, 130),
+        ("cos", _gen_cos, 15), ("acf", _gen_acf, 40), ("adapt", _gen_adapt, 30),
+        ("pad", _gen_pad, 60), ("trunc", _gen_trunc, 60), ("interp", _gen_interp, 60),
         ("tab", lambda r: _gen_tab(r, "tab"), 40), ("concat", lambda r: _gen_tab(r, "concat"), 30),
         ("paa", _gen_paa, 90), ("iseg", _gen_iseg, 70), ("slide", _gen_slide, 60)]
 
@@ -260,6 +340,68 @@ def _canon_rows(Xt):
     return [[_canon_cell(a[i])] for i in range(a.shape[0])]
 
 
+def _mk_series(cols, t0=0):
+    import pandas as pd
+    idx = pd.RangeIndex(t0, t0 + len(cols[0]))
+    if len(cols) == 1:
+        return pd.Series(cols[0], dtype=float, index=idx)
+    return pd.DataFrame({"c%d" % i: pd.Series(c, dtype=float, index=idx)
+                         for i, c in enumerate(cols)})
+
+
+def _canon_cols(Zt):
+    import pandas as pd
+    if isinstance(Zt, pd.DataFrame):
+        return [_canon_cell(Zt.iloc[:, j]) for j in range(Zt.shape[1])]
+    return [_canon_cell(Zt)]
+
+
+_DOUBLES = {}
+
+
+def driver_init():
+    """Order-sensitive test-double series transformers for the row transformers."""
+    import numpy as np
+    from sktime.transformations.base import (_SeriesToPrimitivesTransformer,
+                                             _SeriesToSeriesTransformer)
+
+    class Affine(_SeriesToSeriesTransformer):
+        _tags = {"fit-in-transform": True}
+
+        def __init__(self, a=1.0, b=0.0):
+            self.a = a
+            self.b = b
+            super(Affine, self).__init__()
+
+        def transform(self, Z, X=None):
+            self.check_is_fitted()
+            return self.a * np.asarray(Z, dtype=float) + self.b
+
+    class Cumsum(_SeriesToSeriesTransformer):
+        _tags = {"fit-in-transform": True}
+
+        def transform(self, Z, X=None):
+            self.check_is_fitted()
+            return np.cumsum(np.asarray(Z, dtype=float), axis=0)
+
+    class Reverse(_SeriesToSeriesTransformer):
+        _tags = {"fit-in-transform": True}
+
+        def transform(self, Z, X=None):
+            self.check_is_fitted()
+            return np.asarray(Z, dtype=float)[::-1].copy()
+
+    class Weighted(_SeriesToPrimitivesTransformer):
+        def transform(self, Z, X=None):
+            self.check_is_fitted()
+            Z = np.asarray(Z, dtype=float)
+            w = np.arange(1, Z.shape[0] + 1, dtype=float).reshape((-1,) + (1,) * (Z.ndim - 1))
+            return np.sum(Z * w, axis=0)
+
+    _DOUBLES.update({"affine": Affine, "cumsum": Cumsum, "reverse": Reverse,
+                     "weighted": Weighted})
+
+
 ERRS = (ValueError, TypeError, IndexError, KeyError, NotImplementedError, AttributeError,
         ZeroDivisionError)
 
@@ -302,6 +444,61 @@ def run_impl(case):
             from sktime.transformations.panel.segment import SlidingWindowSegmenter
             t = SlidingWindowSegmenter(window_length=case["w"])
             return {"panel": _canon_panel(t.fit(X).transform(X))}
+        if k == "rife":
+            from sktime.transformations.panel.summarize._extract import (
+                RandomIntervalFeatureExtractor)
+            from sktime.utils.slope_and_trend import _slope
+            fm = {"mean": np.mean, "std": np.std, "slope": _slope}
+            t = RandomIntervalFeatureExtractor(
+                n_intervals=case["n_intervals"], min_length=case["min_length"],
+                features=[fm[f] for f in case["feats"]], random_state=case["seed"])
+            t.fit(Xfit)
+            ivs = [[int(a), int(b)] for a, b in t.intervals_]
+            Xt = t.transform(X)
+            return {"intervals": ivs, "panel": _canon_rows(Xt),
+                    "columns": [str(c) for c in Xt.columns]}
+        if k == "row_s2s":
+            from sktime.transformations.panel.compose import SeriesToSeriesRowTransformer
+            f = case["f"]
+            d = _DOUBLES[f[0]](*f[1:])
+            return {"panel": _canon_panel(SeriesToSeriesRowTransformer(d).fit(X).transform(X))}
+        if k == "row_s2p":
+            from sktime.transformations.panel.compose import SeriesToPrimitivesRowTransformer
+            from sktime.transformations.series.summarize import MeanTransformer
+            d = MeanTransformer() if case["g"] == "mean" else _DOUBLES["weighted"]()
+            return {"panel": _canon_rows(
+                SeriesToPrimitivesRowTransformer(d).fit(X).transform(X))}
+        if k == "impute":
+            import pandas as pd
+            from sktime.transformations.series.impute import Imputer
+            from harness.core import float_ratio
+            z = pd.Series([np.nan if v is None else v for v in case["z"]], dtype=float,
+                          index=pd.RangeIndex(case["t0"], case["t0"] + len(case["z"])))
+            z0 = z.copy()
+            t = Imputer(method=case["method"], value=case["value"])
+            zt = t.fit(z).transform(z)
+            return {"vals": [float_ratio(v) for v in zt.values],
+                    "index": [int(i) for i in zt.index],
+                    "input_unchanged": bool(z.equals(z0))}
+        if k == "cos":
+            from sktime.transformations.series.cos import CosineTransformer
+            Z = _mk_series(case["cols"])
+            Zt = CosineTransformer().fit(Z).transform(Z)
+            return {"panel": [_canon_cols(Zt)]}
+        if k == "acf":
+            import pandas as pd
+            from sktime.transformations.series.acf import AutoCorrelationTransformer
+            z = pd.Series(case["z"], dtype=float)
+            t = AutoCorrelationTransformer(n_lags=case["n_lags"], adjusted=case["adjusted"],
+                                           fft=case["fft"])
+            return {"panel": [[_canon_cell(t.fit(z).transform(z))]]}
+        if k == "adapt":
+            from sklearn.preprocessing import MinMaxScaler
+            from sktime.transformations.series.adapt import TabularToSeriesAdaptor
+            t = TabularToSeriesAdaptor(MinMaxScaler()).fit(_mk_series(case["fit"]))
+            Z = _mk_series(case["cols"], t0=3)
+            Zt = t.transform(Z)
+            return {"panel": [_canon_cols(Zt)], "index_kept": bool(Zt.index.equals(Z.index))}
         raise AssertionError("unknown kind " + k)
     except ERRS as e:
         return {"err": type(e).__name__}
@@ -376,8 +573,8 @@ def interp_values(s, m):
     out = []
     for j in range(m):
         x = Fr(j * (n - 1), m - 1) if m > 1 else Fr(0)
-        kk = min(x.numerator // x.denominator, n - 2)
-        out.append(s[kk] + (x - kk) * (s[kk + 1] - s[kk]))
+        kk = max(min(x.numerator // x.denominator, n - 2), 0)
+        out.append(s[kk] + (x - kk) * (s[kk + 1] - s[kk]) if n > 1 else s[0])
     return out
 
 
@@ -400,6 +597,7 @@ def oracle(case, out):
         return "array-cells-rejected: %s on a nested frame with ndarray cells raises AttributeError" % k
     if out.get("err") in ("AttributeError", "KeyError", "ZeroDivisionError"):
         return "%s-unrelated-error: %s" % (k, out["err"])
+    p = fit = None
     if "X" in case:
         p = _frp(case["X"])
         fit = _frp(case["fit"]) if case.get("fit") is not None else p
@@ -424,7 +622,7 @@ def oracle(case, out):
             exp = [[s[lo:up] for s in row] for row in p]
         return _cmp_panel(k, out, exp)
     if k == "interp":
-        if min(_lens(p)) < 2:
+        if min(_lens(p)) < 2 and case["length"] >= 2:
             return _expect_err(k, out, "a series with fewer than two points")
         exp = [[interp_values(s, case["length"]) for s in row] for row in p]
         return _cmp_panel(k, out, exp, exact=False)
@@ -455,7 +653,7 @@ def oracle(case, out):
             if _cmp_panel(k, out, drop) is None:
                 return ("interval-drops-last-point: %d points / %d intervals: first cell has %d "
                         "values, the intervals do not tile the series" % (
-                            len(p[0][0]), kk, len(out["panel"][0][0])))
+                            n, kk, len(out["panel"][0][0])))
         return f
     if k == "slide":
         w = case["w"]
@@ -466,12 +664,240 @@ def oracle(case, out):
             exp.append([[s[min(max(i + j - w // 2, 0), n - 1)] for j in range(w)]
                         for i in range(n)])
         return _cmp_panel(k, out, exp)
+    if k == "rife":
+        return _oracle_rife(case, out, p, fit)
+    if k == "row_s2s":
+        if len(set(_lens(p))) != 1:
+            return _expect_err(k, out, "unequal-length panel")
+        f = case["f"]
+        exp = [[_sfun(f, s) for s in row] for row in p]
+        return _cmp_panel(k, out, exp)
+    if k == "row_s2p":
+        if len(set(_lens(p))) != 1:
+            return _expect_err(k, out, "unequal-length panel")
+        if case["g"] == "mean":
+            exp = [[[sum(s, Fr(0)) / len(s) for s in row]] for row in p]
+        else:
+            exp = [[[sum(((t + 1) * x for t, x in enumerate(s)), Fr(0)) for s in row]]
+                   for row in p]
+        return _cmp_panel(k, out, exp, exact=False)
+    if k == "impute":
+        return _oracle_impute(case, out)
+    if k == "cos":
+        if "err" in out:
+            return "cos-rejected-valid-input: %s" % out["err"]
+        import math
+        got = out["panel"][0]
+        if [len(c) for c in got] != [len(c) for c in case["cols"]]:
+            return "cos-shape: %s" % [len(c) for c in got]
+        for c, (gc, xc) in enumerate(zip(got, case["cols"])):
+            for j, (g, x) in enumerate(zip(gc, xc)):
+                if g is None or abs(float(_fr(g)) - math.cos(x)) > 1e-9:
+                    return "cos-cell-value: column %d position %d" % (c, j)
+        return None
+    if k == "acf":
+        z = [Fr(x) for x in case["z"]]
+        n = len(z)
+        mu = sum(z, Fr(0)) / n
+        d = [x - mu for x in z]
+
+        def cov(kk):
+            den = (n - kk) if case["adjusted"] else n
+            return sum((d[t] * d[t + kk] for t in range(n - kk)), Fr(0)) / den
+        if cov(0) == 0:
+            if "err" in out or any(v is None for v in out["panel"][0][0]):
+                return None
+            return "acf-constant-series-not-nan"
+        lags = n if case["n_lags"] is None else min(case["n_lags"] + 1, n)
+        exp = [[[cov(kk) / cov(0) for kk in range(lags)]]]
+        return _cmp_panel(k, out, exp, exact=False)
+    if k == "adapt":
+        fitc = [[Fr(x) for x in c] for c in case["fit"]]
+        cols = [[Fr(x) for x in c] for c in case["cols"]]
+        exp = []
+        for fc, c in zip(fitc, cols):
+            mn, mx = min(fc), max(fc)
+            rg = (mx - mn) if mx != mn else Fr(1)
+            exp.append([(x - mn) / rg for x in c])
+        f = _cmp_panel(k, out, [exp], exact=False)
+        if f is None and not out.get("index_kept", True):
+            return "adapt-index-not-kept"
+        return f
     return "unknown-kind"
+
+
+def _sfun(f, s):
+    if f[0] == "affine":
+        return [Fr(f[1]) * x + Fr(f[2]) for x in s]
+    if f[0] == "cumsum":
+        out, acc = [], Fr(0)
+        for x in s:
+            acc += x
+            out.append(acc)
+        return out
+    return list(reversed(s))
+
+
+def _slope(y):
+    """least-squares slope of y against 1..n"""
+    n = len(y)
+    x = [Fr(i + 1) for i in range(n)]
+    xm, ym = sum(x) / n, sum(y, Fr(0)) / n
+    sxx = sum((a - xm) ** 2 for a in x)
+    sxy = sum((a - xm) * (b - ym) for a, b in zip(x, y))
+    return sxy / sxx
+
+
+def _oracle_rife(case, out, p, fit):
+    k = "rife"
+    if "err" in out:
+        return "rife-rejected-valid-input: %s" % out["err"]
+    n = len(fit[0][0])
+    ivs = out["intervals"]
+    mnl = case["min_length"] or 2
+    if len(ivs) != case["n_intervals"]:
+        return "rife-interval-count: %d fitted, %d requested" % (len(ivs), case["n_intervals"])
+    for a, b in ivs:
+        if not (0 <= a and a + mnl <= b <= n):
+            return "rife-fitted-interval-outside-series: [%d, %d) n=%d min_length=%d" % (
+                a, b, n, mnl)
+    got = out["panel"]
+    if len(got) != len(p):
+        return "rife-one-row-per-instance: %d rows for %d instances" % (len(got), len(p))
+    names = {"mean": "mean", "std": "std", "slope": "_slope"}
+    cols = ["%d_%d_%s" % (a, b, names[f]) for f in case["feats"] for a, b in ivs]
+    if out.get("columns") != cols:
+        return "rife-column-order: %s expected %s" % (out.get("columns"), cols)
+    for i, row in enumerate(p):
+        s = row[0]
+        g = got[i][0]
+        if len(g) != len(case["feats"]) * len(ivs):
+            return "rife-cell-length: instance %d has %d features" % (i, len(g))
+        j = 0
+        for f in case["feats"]:
+            for a, b in ivs:
+                seg = s[a:b]
+                v = g[j]
+                if v is None or isinstance(v, str):
+                    return "rife-not-finite: instance %d feature %d" % (i, j)
+                v = _fr(v)
+                if f == "mean":
+                    ok = _close(v, sum(seg, Fr(0)) / len(seg))
+                elif f == "slope":
+                    ok = _close(v, _slope(seg))
+                else:
+                    mu = sum(seg, Fr(0)) / len(seg)
+                    var = sum((x - mu) ** 2 for x in seg) / len(seg)
+                    ok = v >= 0 and _close(v * v, var)
+                if not ok:
+                    return "rife-cell-value: instance %d %s of [%d, %d) is %s" % (
+                        i, f, a, b, float(v))
+                j += 1
+    return None
+
+
+def impute_expected(method, value, z):
+    """The documented rule, then the final ffill + bfill; z is a list of Fraction / None."""
+    n = len(z)
+    obs = [x for x in z if x is not None]
+
+    def ff(l):
+        out, last = [], None
+        for x in l:
+            last = x if x is not None else last
+            out.append(last)
+        return out
+
+    def bf(l):
+        return list(reversed(ff(list(reversed(l)))))
+
+    def neighbours(t):
+        pr = next(((u, z[u]) for u in range(t - 1, -1, -1) if z[u] is not None), None)
+        nx = next(((u, z[u]) for u in range(t + 1, n) if z[u] is not None), None)
+        return pr, nx
+    if method == "mean":
+        v = sum(obs, Fr(0)) / len(obs) if obs else None
+        core = [v if x is None else x for x in z]
+    elif method == "median":
+        so = sorted(obs)
+        m = len(so)
+        v = None if not so else (so[m // 2] if m % 2 else (so[m // 2 - 1] + so[m // 2]) / 2)
+        core = [v if x is None else x for x in z]
+    elif method == "constant":
+        core = [Fr(value) if x is None else x for x in z]
+    elif method in ("ffill", "pad"):
+        core = ff(z)
+    elif method in ("bfill", "backfill"):
+        core = bf(z)
+    elif method in ("linear", "nearest"):
+        core = []
+        for t, x in enumerate(z):
+            if x is not None:
+                core.append(x)
+                continue
+            pr, nx = neighbours(t)
+            if method == "linear":
+                if pr and nx:
+                    core.append(pr[1] + Fr(t - pr[0], nx[0] - pr[0]) * (nx[1] - pr[1]))
+                else:
+                    core.append(pr[1] if pr else None)
+            else:
+                if pr and nx:
+                    core.append(pr[1] if t - pr[0] <= nx[0] - t else nx[1])
+                else:
+                    core.append(None)
+    elif method == "drift":
+        if not obs:
+            core = list(z)
+        else:
+            y = bf(ff(z))
+            xm, ym = Fr(n - 1, 2), sum(y, Fr(0)) / n
+            sxx = sum((t - xm) ** 2 for t in range(n))
+            b = sum((t - xm) * (v - ym) for t, v in enumerate(y)) / sxx if sxx else Fr(0)
+            a = ym - b * xm
+            core = [a + b * t if x is None else x for t, x in enumerate(z)]
+    else:
+        raise AssertionError(method)
+    return bf(ff(core)), bf(ff(z))
+
+
+def _oracle_impute(case, out):
+    z = [None if v is None else Fr(v) for v in case["z"]]
+    m = case["method"]
+    if "err" in out:
+        if m == "drift" and all(v is None for v in z):
+            return None             # nothing to fit a trend on
+        return "impute-rejected-valid-input: %s" % out["err"]
+    got = [None if v is None else _fr(v) for v in out["vals"]]
+    if len(got) != len(z):
+        return "impute-length: %d values for %d" % (len(got), len(z))
+    if out["index"] != list(range(case["t0"], case["t0"] + len(z))):
+        return "impute-index-changed: %s" % out["index"]
+    for t, (x, g) in enumerate(zip(z, got)):
+        if x is not None and g != x:
+            return "impute-observed-value-changed: position %d %s -> %s" % (t, x, g)
+    exp, ffbf = impute_expected(m, case["value"], z)
+
+    def same(a, b):
+        return all((x is None and y is None) or (x is not None and y is not None and _close(x, y))
+                   for x, y in zip(a, b))
+    if same(got, exp):
+        return None
+    if m == "drift" and same(got, ffbf):
+        return ("drift-fill-never-applies: gaps are forward/backward filled before the trend is "
+                "fitted; got %s, trend fill %s" % ([None if g is None else float(g) for g in got],
+                                                 [None if e is None else float(e) for e in exp]))
+    t = next(i for i, (x, y) in enumerate(zip(got, exp))
+             if not same([x], [y]))
+    return "impute-%s-value: position %d is %s expected %s" % (
+        m, t, None if got[t] is None else float(got[t]), None if exp[t] is None else float(exp[t]))
 
 
 def nontrivial(case, out):
     if "err" in out:
         return False
+    if case["kind"] == "impute":
+        return any(v is None for v in case["z"]) and any(v is not None for v in case["z"])
     n = sum(len(c) for row in out.get("panel", []) for c in row)
     return n >= 2
 
@@ -533,7 +959,12 @@ def _cq(x):
 
 
 def _cser(s):
-    return clist([_cq(x) for x in s])
+    return clist([_cq(_fr(x) if isinstance(x, (list, tuple)) else x) for x in s])
+
+
+def _coser(z):
+    return clist(["None" if v is None or isinstance(v, str) else "(Some %s)" % _cq(
+        _fr(v) if isinstance(v, (list, tuple)) else v) for v in z])
 
 
 def _cpanel(p):
@@ -541,7 +972,7 @@ def _cpanel(p):
 
 
 def _cout(out):
-    if "err" in out:
+    if "err" in out or "panel" not in out:
         return "None"
     for row in out["panel"]:
         for s in row:
@@ -585,11 +1016,45 @@ def coq_case(case, out):
         return "CISegArr %s %s %s" % (_civs(case["ivs"]), X, o)
     if k == "slide":
         return "CSlide %s %s %s" % (cnat(case["w"]), X, o)
+    if k == "rife":
+        if "err" in out or "intervals" not in out:
+            return None
+        rows = "None"
+        if all(v is not None and not isinstance(v, str) for r in out["panel"] for v in r[0]):
+            rows = "(Some %s)" % clist([_cser([_fr(v) for v in r[0]]) for r in out["panel"]])
+        return "CRife %s %s %s %s" % (
+            clist([{"mean": "FMean", "std": "FStd", "slope": "FSlope"}[f] for f in case["feats"]]),
+            _civs(out["intervals"]), X, rows)
+    if k == "row_s2s":
+        f = case["f"]
+        ft = {"affine": lambda: "(SAffine %s %s)" % (_cq(f[1]), _cq(f[2])),
+              "cumsum": lambda: "SCumsum", "reverse": lambda: "SReverse"}[f[0]]()
+        return "CRowS2S %s %s %s" % (ft, X, o)
+    if k == "row_s2p":
+        return "CRowS2P %s %s %s" % ("PMean" if case["g"] == "mean" else "PWeighted", X, o)
+    if k == "impute":
+        m = {"mean": "IMean", "median": "IMedian", "ffill": "IFfill", "pad": "IFfill",
+             "bfill": "IBfill", "backfill": "IBfill", "nearest": "INearest", "linear": "ILinear",
+             "drift": "IDrift"}.get(case["method"])
+        if case["method"] == "constant":
+            m = "(IConstant %s)" % _cq(case["value"])
+        vals = "None" if "err" in out else "(Some %s)" % _coser(out["vals"])
+        return "CImpute %s %s %s" % (m, _coser(case["z"]), vals)
+    if k == "cos":
+        return "CCos %s %s" % (clist([_cser(c) for c in case["cols"]]), o)
+    if k == "acf":
+        return "CAcf %s %s %s %s" % (cbool(case["adjusted"]), copt(case["n_lags"], cnat),
+                                    _cser(case["z"]), o)
+    if k == "adapt":
+        return "CAdapt %s %s %s" % (clist([_cser(c) for c in case["fit"]]),
+                                   clist([_cser(c) for c in case["cols"]]), o)
     return None
 
 
 def coq_model_term(case):
     t = coq_case(case, {"err": "x"})
+    if t and t.startswith("CImpute"):
+        return "(fun c => match c with CImpute m l _ => impute_res m l | _ => Err end) (%s)" % t
     return "model_says (%s)" % t if t else "tt"
 
 
